@@ -7,5 +7,6 @@ int main(int argc, char **argv) {
     RUN("signal_history", 1, true, scn::signal_history(o, R, o.cases));
     RUN("signal_mt", o.threads, true, scn::signal_mt(o, R, T, o.cases));
     RUN("signal_string_values", 1, true, scn::signal_string_values(o, R, o.cases));
+    RUN("signal_throwing_values", 1, true, scn::signal_throwing_values(o, R, o.cases));
     return 0;
 }
